@@ -15,9 +15,10 @@ var (
 	ErrIO    = errors.New("simdisk: injected I/O error (EIO)")
 	ErrNoSpc = errors.New("simdisk: injected no space left on device (ENOSPC)")
 
-	fWriteErr = simrt.NewFault("disk.write.error")
-	fReadErr  = simrt.NewFault("disk.read.error")
-	fSeekErr  = simrt.NewFault("disk.seek.error")
+	fWriteErr  = simrt.NewFault("disk.write.error")
+	fReadErr   = simrt.NewFault("disk.read.error")
+	fSeekErr   = simrt.NewFault("disk.seek.error")
+	fShortRead = simrt.NewFault("disk.short.read")
 )
 
 // Write is one physical write.
@@ -40,10 +41,14 @@ type File struct {
 	WriteErr  error
 	FailRead  int // the n-th Read from now fails; -1 = never
 	FailSeek  int
-	nWrite    int
-	nRead     int
-	nSeek     int
-	Closed    bool
+	// ReadMode: 0 = reads fill the buffer; 1 = a read never crosses a 4096-byte
+	// page (a legal short read); 2 = tape-chosen short reads (needs Choose).
+	ReadMode int
+	Choose   func(n int) int
+	nWrite   int
+	nRead    int
+	nSeek    int
+	Closed   bool
 }
 
 func New(img []byte) *File {
@@ -67,7 +72,26 @@ func (f *File) Read(p []byte) (int, error) {
 	if f.Pos >= int64(len(f.Img)) {
 		return 0, io.EOF
 	}
-	n := copy(p, f.Img[f.Pos:])
+	avail := len(f.Img) - int(f.Pos)
+	want := len(p)
+	if want > avail {
+		want = avail
+	}
+	switch f.ReadMode {
+	case 1:
+		if page := 4096 - int(f.Pos%4096); want > page {
+			want = page
+			fShortRead.Hit()
+		}
+	case 2:
+		if want > 1 && f.Choose != nil {
+			if w := 1 + f.Choose(want); w < want {
+				want = w
+				fShortRead.Hit()
+			}
+		}
+	}
+	n := copy(p[:want], f.Img[f.Pos:])
 	f.Pos += int64(n)
 	return n, nil
 }
